@@ -23,6 +23,12 @@ Sub-checks
              field at distance one from its constants); UDP/IPv4 at the lengths around its 40 / 56 / 72-bit exact fits;
              identifier at its escape member with the explicit field(s) carrying every dedicated value (+-1, decoys, member
              values), singly and together, at the exact-fit length and longer.
+  interleaved     two-phase batches (history independence): per variant and enum element of its layout "unusual then ordinary"
+             histories (build the ordinary PDU, decode it with the enum bits patched to an unlisted in-range / listed /
+             member-less value, build again ...), and random batches of 2..4 builds / decodes per PDU class whose enum
+             octets differ; phase 2 serialises the kept objects in another order, phase 3 executes every op again: every
+             outcome equals the first one; enum fields of built PDUs sit at the layout's positions with the member's value;
+             afterwards every element enum still maps value -> member -> bits.
   decode_atheris  (thorough) the same decoders and oracle under a coverage-guided Atheris campaign (vp/c03_atheris.py).
   elements   (c) every value 0..2^w-1 of every w<=8-bit element type against vp/refs/elements_ref.py.
   sync       the ten SYNC constants + random 48-bit values (SyncPatterns; not part of the w<=8 exhaustive claim).
@@ -59,6 +65,11 @@ RULE = (
     "singly and together; equal/adjacent values of small integer fields); distinct by hash. decode_boundary: deterministic enumeration per decoder - all-zero, all-ones, alternating, every implemented "
     "opcode/format template with zero/one/random fill and every single-bit flip of the zero- and one-filled strings, plus "
     "escape-identifier strings whose explicit fields carry every dedicated value. "
+    "interleaved: batches {ops, order} of 2..6 builds / decodes of one PDU class that differ in their enum-valued bits "
+    "(listed members, unlisted in-range values of every fold range, values without member), deterministic 'unusual then "
+    "ordinary' histories per (variant, enum element) plus Hypothesis-drawn batches; distinct by hash, all non-trivial. "
+    "Representation variants: bit-string fields are handed over as big-endian, little-endian (same bit sequence) and frozen "
+    "bitarrays; decoders also receive frozenbitarrays. "
     "(b) decode: per decoder, bit strings of the right length, one third to one half uniform, the rest with opcode / "
     "format / inner enum / check-field bits forced to implemented values; distinct by hash, non-trivial = strings the "
     "decoder accepts (rejected ones are tallied by exception type); thorough adds an Atheris campaign on the same decoders "
@@ -80,6 +91,15 @@ ASSUMPTIONS = [
     "GPS longitude in [-180, 180), latitude in [-90, 90); tolerance for off-grid floats: strictly less than one quantisation "
     "step (45/2^22 degrees), exact equality for on-grid values; judged in exact rational arithmetic",
     "integrity indicators (crc_ok, crc9_ok, fec_parity_ok, emb_parity_ok) are not compared here (property C04)",
+    "fields are compared through the explicit per-variant field list only (constructor parameters, plus the two derived "
+    "udp_*_port_original attributes by their own clause); further public / diagnostic attributes of the objects are ignored",
+    "containers: a little-endian bitarray holding the same bit sequence is in the domain of the bit-string *fields* that the "
+    "library only concatenates / slices (check fields of the full LC, short-LC addresses, broadcast parameters, bit padding, "
+    "user data, service-options reserved bits) but not of the decoders (from_bits of every PDU reads another number out of "
+    "its slices on the unchanged tree - probed for all 33 entry points) nor of fields that go through tobytes()/ba2int "
+    "(raw_data, rate data, dbsn); frozenbitarray is accepted by every decoder",
+    "ENUM_POS (props/c03.py) gives the bit positions of the identifier / enum elements from the ETSI PDU layouts; the clause "
+    "built on it applies to PDUs built from defined members only",
 ]
 
 # ======================================================================================================================
@@ -162,7 +182,7 @@ def to_lib(kind, v):
     if kind.startswith("enum:"):
         return lib(kind[5:])[v] if isinstance(v, str) else v  # ints stay ints (Union[Enum, int] parameters)
     if kind in ("bits", "crc_bits"):
-        return None if v is None else bitarray(v)
+        return None if v is None else make_bits(v)
     if kind == "bytes":
         return bytes.fromhex(v)
     if kind in ("bytes|bits", "int|bits", "int|bytes", "crc8"):
@@ -177,6 +197,17 @@ def to_lib(kind, v):
     raise AssertionError(f"unknown kind {kind}")
 
 
+def make_bits(v):
+    """'0101' -> big-endian bitarray; 'le:0101' -> little-endian bitarray holding the same bit sequence; 'fz:0101' ->
+    frozenbitarray (representation variants of the same word: the expected value is always the bit sequence)"""
+    from bitarray import frozenbitarray
+
+    tag, sep, body = v.partition(":")
+    if not sep:
+        return bitarray(v)
+    return bitarray(body, endian="little") if tag == "le" else frozenbitarray(body)
+
+
 def _b(x):
     return bool(x) if isinstance(x, bool) or x in (0, 1) else repr(x)
 
@@ -189,7 +220,9 @@ def expected(kind, v):
         return bool(v)
     if kind.startswith("enum:"):
         return v if isinstance(v, str) else lib(kind[5:])(v).name
-    if kind in ("bits", "crc_bits", "bytes"):
+    if kind in ("bits", "crc_bits"):
+        return v if v is None else (v.partition(":")[2] if ":" in v else v)
+    if kind == "bytes":
         return v
     if kind == "bytes|bits":
         tag, _, body = v.partition(":")
@@ -389,6 +422,16 @@ def _build_variants():
         g = U(n)
         return G(g.strat, g.bnd + alt(n), g.rnd, g.ext, n, g.core + alt(n)).map(lambda v, n=n: format(v, f"0{n}b"))
 
+    def CBITS(n):
+        """BITS(n) handed over in one of three containers: big-endian bitarray, little-endian bitarray with the same bit
+        sequence, frozenbitarray (fields the library only concatenates / slices / compares)"""
+        g = BITS(n)
+        if n == 0:
+            return g
+        le, fz = g.map(lambda b: "le:" + b), g.map(lambda b: "fz:" + b)
+        return G(st.one_of(g.strat, g.strat, le.strat, fz.strat), g.bnd + le.core + fz.core, lambda r, g=g: ["", "", "le:", "fz:"][r.randrange(4)] + g.rnd(r),
+                 g.ext, n, g.core + le.core[:2] + fz.core[:2])
+
     def HEX(n):
         g = U(8 * n)
         return G(st.binary(min_size=n, max_size=n).map(lambda b: int.from_bytes(b, "big")), g.bnd + alt(8 * n), g.rnd, g.ext, 8 * n).map(
@@ -455,11 +498,12 @@ def _build_variants():
           Fld("nrand_wait", "int", U(4)), Fld("tscc_reg_required", "bool", B), Fld("tscc_backoff", "int", U(4)),
           Fld("system_identity_code", "int", U(16)), Fld("target_address", "int", U(24))])
     csbk("c_bcast", "AnnouncementPDUsWithoutResponse",
-         [Fld("announcement_type", "enum:AnnouncementType", EN("AnnouncementType")), Fld("broadcast_params", "bits", BITS(38)),
+         [Fld("announcement_type", "enum:AnnouncementType", EN("AnnouncementType")), Fld("broadcast_params", "bits", CBITS(38)),
           Fld("tscc_reg_required", "bool", B), Fld("tscc_backoff", "int", U(4)), Fld("system_identity_code", "int", U(16))])
 
     # ------------------------------------------------------------------------------------------------ data headers (96 bits)
-    CRC16B = ONE(CH([None, "0" * 16]), G(st.integers(1, 0xFFFF), ubnd(16)[1:], lambda r: r.randint(1, 0xFFFF), (1, 0xFFFF), 16).map(lambda v: format(v, "016b")))
+    _c16 = G(st.integers(1, 0xFFFF), ubnd(16)[1:], lambda r: r.randint(1, 0xFFFF), (1, 0xFFFF), 16).map(lambda v: format(v, "016b"))
+    CRC16B = ONE(CH([None, "0" * 16]), _c16, G(_c16.strat.map(lambda b: "fz:" + b), ["fz:" + b for b in _c16.core[:2]], lambda r: "fz:" + _c16.rnd(r), None, 16))
 
     def dh(name, dpf, fields):
         common = [
@@ -486,7 +530,7 @@ def _build_variants():
     dh("short_data_defined", "ShortDataDefined",
        [Fld("is_group", "bool", B01), Fld("is_response_requested", "bool", B01), Fld("appended_blocks", "int", U(6)),
         Fld("defined_data_format", "enum:DefinedDataFormats", EN("DefinedDataFormats")), Fld("sarq", "enum:SARQ", EN("SARQ")), F_FLAG,
-        Fld("bit_padding", "bits", BITS(8))])
+        Fld("bit_padding", "bits", CBITS(8))])
     dh("udt", "UnifiedDataTransport",
        [Fld("is_group", "bool", B01), Fld("is_response_requested", "bool", B01), Fld("is_emergency", "bool", B01),
         Fld("udt_option_flag", "enum:UDTOptionFlag", EN("UDTOptionFlag")), Fld("udt_format", "enum:UDTFormat", EN("UDTFormat")),
@@ -521,7 +565,7 @@ def _build_variants():
                 Fld("protect_flag", "bool", B01),
                 just("enum:FLCOs", flco, "full_link_control_opcode", kw="flco"),
                 Fld("feature_set_id", "enum:FeatureSetIDs", EN("FeatureSetIDs"), kw="fid"),
-                Fld("crc", "bits", BITS(crclen)),
+                Fld("crc", "bits", CBITS(crclen)),
             ]
             add(Variant(f"flc.{name}.{72 + crclen}", "FullLinkControl", common + fields, 72 + crclen))
 
@@ -543,7 +587,7 @@ def _build_variants():
     add(Variant("slc.activity", "ShortLinkControl",
                 [just("enum:SLCOs", "ActivityUpdate", "slco"), Fld("crc_8bit", "crc8", CRC8, check=True),
                  Fld("ts1_activity_id", "enum:ActivityID", EN("ActivityID")), Fld("ts2_activity_id", "enum:ActivityID", EN("ActivityID")),
-                 Fld("ts1_address", "bits", BITS(8)), Fld("ts2_address", "bits", BITS(8))], 36))
+                 Fld("ts1_address", "bits", CBITS(8)), Fld("ts2_address", "bits", CBITS(8))], 36))
 
     # ------------------------------------------------------------------------------------------------ PI header (96 bits)
     add(Variant("pi_header", "PIHeader", [Fld("data", "bytes", HEX(10)), Fld("crc", "crc_int", G(st.just(0), [0], lambda r: 0, None, 16), check=True)], 96))
@@ -579,8 +623,8 @@ def _build_variants():
 
     # user data: whole octets or any bit count; boundary: empty (the header fits exactly), one bit, 7/8/9 bits, long strings
     UDATA = G(st.one_of(st.integers(0, 24).flatmap(lambda k: BITS(8 * k).strat), st.integers(0, 70).flatmap(lambda k: BITS(k).strat)),
-              [""] + [p_ for n_ in (1, 7, 8, 9, 16, 70, 192) for p_ in _pat(n_)],
-              lambda r: format(r.getrandbits(8 * k), f"0{8 * k}b") if (k := r.randint(0, 24)) else "", ("", "1" * 192))
+              [""] + [p_ for n_ in (1, 7, 8, 9, 16, 70, 192) for p_ in _pat(n_)] + ["le:" + _pat(16)[2], "fz:" + _pat(16)[3], "le:" + "1" * 9, "fz:1"],
+              lambda r: ["", "", "le:", "fz:"][r.randrange(4)] + format(r.getrandbits(8 * k), f"0{8 * k}b") if (k := r.randint(0, 24)) else "", ("", "1" * 192))
 
     # explicit port of an extended header: any 16-bit value, with a share of the ports that have an identifier of their own
     # (and their neighbours / other application ports) - see vp/refs/elements_ref.DEDICATED
@@ -603,7 +647,7 @@ def _build_variants():
             Fld("extended_header_1", "int", XPORT if next_ >= 1 else CH([None])),
             Fld("extended_header_2", "int", XPORT if next_ >= 2 else CH([None])),
         ]
-        add(Variant("udp." + name, "UDPIPv4CompressedHeader", fields, lambda f, k=next_: 40 + 16 * k + len(f["user_data"])))
+        add(Variant("udp." + name, "UDPIPv4CompressedHeader", fields, lambda f, k=next_: 40 + 16 * k + len(f["user_data"].partition(":")[2] if ":" in f["user_data"] else f["user_data"])))
 
     # ------------------------------------------------------------------------------------------------ slot type, EMB, small classes
     add(Variant("slot_type", "SlotType",
@@ -615,7 +659,7 @@ def _build_variants():
                  Fld("link_control_start_stop", "enum:LCSS", EN_INT("LCSS")),
                  Fld("emb_parity", "crc_int", CRCINT(9), check=True)], 16))
     add(Variant("service_options", "ServiceOptions",
-                [Fld(k, "bool", B01) for k in SO_BOOLS] + [Fld("priority_level", "int", U(2)), Fld("reserved", "bits", BITS(2))], 8))
+                [Fld(k, "bool", B01) for k in SO_BOOLS] + [Fld("priority_level", "int", U(2)), Fld("reserved", "bits", CBITS(2))], 8))
     add(Variant("fsn", "FragmentSequenceNumber", [Fld("value", "int", U(4))], 4))
     return V
 
@@ -1007,7 +1051,10 @@ class Dec:
             s = mk(self.n)
         else:
             s = self.lengths.flatmap(mk)
-        return s.map(lambda b, d=self.name: {"dec": d, "bits": b})
+        if self.method == "from_bytes":
+            return s.map(lambda b, d=self.name: {"dec": d, "bits": b})
+        return st.tuples(s, st.sampled_from([None, None, None, "frozen"])).map(
+            lambda a, d=self.name: {"dec": d, "bits": a[0]} if a[1] is None else {"dec": d, "bits": a[0], "rep": a[1]})
 
 
 def bitarray_from_bytes(b):
@@ -1103,7 +1150,12 @@ def oracle_decode(case):
     """case = {dec, bits: '0101…'}"""
     d = decoders()[case["dec"]]
     bits = bitarray(case["bits"])
-    status, res = call(d.run, bitarray(bits), allowed=d.allowed if d.allowed else ())
+    arg = bitarray(bits)
+    if case.get("rep") == "frozen":  # same word in an immutable container (every decoder of the unchanged tree accepts it)
+        from bitarray import frozenbitarray
+
+        arg = frozenbitarray(bits)
+    status, res = call(d.run, arg, allowed=d.allowed if d.allowed else ())
     if status == "raised":
         if not _explicit_rejection(res):
             raise Fail("rejection_is_documented", f"{type(res).__name__}: {res}", "an explicit 'undefined / not implemented' rejection", klass=exc_klass(res))
@@ -1188,6 +1240,8 @@ def decode_boundary_cases(d, rng):
         if (n, val) not in seen:
             seen.add((n, val))
             res.append((lab, {"dec": d.name, "bits": format(val, f"0{n}b")}))
+            if d.method != "from_bytes" and not lab.endswith("+flip") and not lab.startswith("dedicated"):
+                res.append((lab + "/frozen", {"dec": d.name, "bits": format(val, f"0{n}b"), "rep": "frozen"}))
     return res
 
 
@@ -1348,6 +1402,214 @@ def drv_atheris(ctx: Ctx, sub: SubCheck):
 
 
 # ======================================================================================================================
+# interleaved two-phase batches: results must not depend on what else was decoded / built before
+
+# where the identifier / enum elements sit in the serialisation (ETSI layouts: TS 102 361-1 §9.1.2-9.1.7, §9.2.x, -2 §7.1,
+# -3 §7.1.1); (constructor keyword, element, first bit, end bit, variants it applies to or None = all of the class)
+ENUM_POS = {
+    "CSBK": [("csbko", "CsbkOpcodes", 2, 8, None), ("manufacturers_feature_set_id", "FeatureSetIDs", 8, 16, None),
+             ("announcement_type", "AnnouncementType", 16, 21, ["csbk.c_bcast"]), ("answer_response", "AnswerResponse", 24, 32, ["csbk.uu_ans_rsp"]),
+             ("service_type", "CsbkOpcodes", 18, 24, ["csbk.nack_rsp"])],
+    "FullLinkControl": [("flco", "FLCOs", 2, 8, None), ("fid", "FeatureSetIDs", 8, 16, None)],
+    "DataHeader": [("dpf", "DataPacketFormats", 4, 8, None), ("sap_identifier", "SAPIdentifier", 8, 12, None),
+                   ("defined_data_format", "DefinedDataFormats", 64, 70, ["dh.short_data_defined"]), ("udt_format", "UDTFormat", 12, 16, ["dh.udt"]),
+                   ("udt_opcode", "CsbkOpcodes", 74, 80, ["dh.udt"])],
+    "ShortLinkControl": [("slco", "SLCOs", 0, 4, None), ("ts1_activity_id", "ActivityID", 4, 8, ["slc.activity"]), ("ts2_activity_id", "ActivityID", 8, 12, ["slc.activity"])],
+    "UDPIPv4CompressedHeader": [("source_ip_address_id", "IPAddressIdentifier", 16, 20, None), ("destination_ip_address_id", "IPAddressIdentifier", 20, 24, None)],
+    "SlotType": [("data_type", "DataTypes", 4, 8, None)],
+}
+
+
+def _enum_positions(v):
+    return [(kw, elem, lo, hi) for kw, elem, lo, hi, only in ENUM_POS.get(v.cls, []) if only is None or v.name in only]
+
+
+def _run_op(op):
+    """execute one op of a batch: ('bits', '0101...', object, serialiser) or ('rejected', ExceptionType, None, None)"""
+    if op["k"] == "dec":
+        d = decoders()[op["dec"]]
+        status, res = call(d.run, bitarray(op["bits"]), allowed=d.allowed if d.allowed else ())
+        if status == "raised":
+            return ("rejected", type(res).__name__, None, None)
+        if res is None:
+            raise Fail("decode_returns_object", None, d.cls, klass=d.name)
+        ser = lambda o, d=d: d.ser(o)  # noqa: E731
+        return ("bits", call(ser, res)[1].to01(), res, ser)
+    v = variants()[op["variant"]]
+    f = op["f"]
+    kwargs = {fl.kw: to_lib(fl.kind, f[fl.kw]) for fl in v.fields if fl.kw is not None and fl.kw in f}
+    _, p = call(lib(v.cls), **kwargs)
+    ser = lambda o: o.as_bits()  # noqa: E731
+    if op["k"] == "build":
+        return ("bits", call(ser, p)[1].to01(), p, ser)
+    # "decode_patched": the serialisation of the built PDU with some bit fields overwritten (an enum octet set to a listed /
+    # unlisted / reserved value), decoded by the variant's decoder
+    b = call(ser, p)[1]
+    for lo, hi, val in op["patch"]:
+        b[lo:hi] = int2ba(val, length=hi - lo, endian="big")
+    status, res = call(v.decode, bitarray(b), allowed=(ValueError, KeyError, NotImplementedError, AssertionError))
+    if status == "raised":
+        return ("rejected", type(res).__name__, None, None)
+    if res is None:
+        raise Fail("decode_returns_object", None, v.cls, klass=v.name)
+    return ("bits", call(ser, res)[1].to01(), res, ser)
+
+
+def _op_label(op):
+    return op["dec"] if op["k"] == "dec" else op["variant"]
+
+
+def oracle_interleaved(case):
+    """case = {ops: [op...], order: [indices]}; op = {k: 'dec', dec, bits} | {k: 'build', variant, f} | {k: 'decode_patched',
+    variant, f, patch: [[lo, hi, value]]}.  Phase 1 executes the ops in order and keeps every object and its serialisation;
+    phase 2 serialises the kept objects again in `order`; phase 3 executes every op once more (last first).  Every outcome
+    must equal the one of phase 1 (a result is a function of its own input, not of the history), built PDUs must carry the
+    values of their enum fields at the positions of the standard's layout, and afterwards every element enum still maps
+    value -> member -> bits unchanged."""
+    import enum
+
+    ops = case["ops"]
+    first = [_run_op(op) for op in ops]
+    for i in case.get("order", range(len(ops))):
+        kind, val, obj, ser = first[i]
+        if kind == "bits":
+            again = call(ser, obj)[1].to01()
+            if again != val:
+                raise Fail("serialisation_independent_of_history", _diffpos(again, val), "the bits this object gave when it was created", klass=_op_label(ops[i]))
+    for i in reversed(range(len(ops))):
+        kind, val, _, _ = _run_op(ops[i])
+        if (kind, val) != first[i][:2]:
+            raise Fail("result_independent_of_history", _diffpos(val, first[i][1]) if kind == first[i][0] == "bits" else [kind, val],
+                       "the outcome of the same op earlier in the batch", klass=_op_label(ops[i]))
+    for op, (kind, val, _, _) in zip(ops, first):
+        if kind != "bits" or op["k"] != "build":
+            continue
+        v = variants()[op["variant"]]
+        for kw, elem, lo, hi in _enum_positions(v):
+            given = op["f"].get(kw)
+            if given is None:
+                continue
+            want = lib(elem)[given].value if isinstance(given, str) else lib(elem)(given).value
+            if int(val[lo:hi], 2) != want:
+                raise Fail("enum_field_serialised_as_member_value", int(val[lo:hi], 2), want, klass=f"{v.name}.{kw}")
+    for name, e in elements_ref.ELEMENTS.items():
+        if e["kind"] != "enum":
+            continue
+        E = getattr(importlib.import_module(e["mod"]), e["cls"])
+        for m in E:
+            if not isinstance(m.value, int) or m.value < 0:
+                continue
+            got = call(E, m.value)[1]
+            if got is not m:
+                raise Fail("element_mapping_unchanged_after_batch", repr(got), repr(m), klass=name)
+            if e["bits"]:
+                b = call(m.as_bits)[1]
+                if not isinstance(b, bitarray) or b != int2ba(m.value, length=e["width"], endian="big"):
+                    raise Fail("element_bits_unchanged_after_batch", repr(b), m.value, klass=name)
+
+
+def _enum_value_classes(elem, width):
+    """(listed values incl. the reserved members, unlisted in-range values - both ends and the middle of every fold range -,
+    values without any member)"""
+    e = elements_ref.ELEMENTS[elem]
+    listed_lib = sorted(m.value for m in lib(elem) if isinstance(m.value, int) and 0 <= m.value < (1 << width))
+    unlisted, none = [], []
+    for lo, hi, tgt in e["fold"]:
+        cand = [x for x in dict.fromkeys([lo, lo + 1, (lo + hi) // 2, hi - 1, hi]) if lo <= x <= hi and x not in listed_lib]
+        unlisted.extend(cand[:4])
+    for x in range(1 << width):
+        if x not in listed_lib and elements_ref.fold_target(elem, x) is None:
+            none.append(x)
+    targets = [tgt for lo, hi, tgt in e["fold"]]
+    return listed_lib, list(dict.fromkeys(unlisted)), none[:2] + none[-1:], targets
+
+
+def interleaved_cases(v, rng):
+    """Deterministic batches of one variant: for every enum element of its layout, 'unusual then ordinary' histories - build
+    the ordinary PDU (enum field at a listed member, in particular each reserved / fold-target member), decode the same PDU
+    with the enum bits patched to an unlisted in-range value, build the ordinary one again, decode it patched to the listed
+    value, to another unlisted value, to a value without member; phase 2 order reversed / rotated."""
+    gens = [(fl, fl.gen) for fl in v.fields if fl.kw is not None and fl.gen is not None]
+    out = []
+    for kw, elem, lo, hi in _enum_positions(v):
+        listed, unlisted, none, targets = _enum_value_classes(elem, hi - lo)
+        fld = [fl for fl, g in gens if fl.kw == kw][0]
+        E = lib(elem)
+        ordinary_members = [fld.gen.bnd[0]] if fld.const else [E(t).name for t in targets if t in listed][:3] or [E(listed[0]).name]
+        for mi, member in enumerate(ordinary_members):
+            bg = {fl.kw: g.rnd(rng) for fl, g in gens}
+            bg[kw] = member
+            mval = E[member].value
+            us = unlisted or none or [listed[-1]]
+            for ui, u in enumerate(us):
+                u2 = us[(ui + 1) % len(us)]
+                ops = [
+                    {"k": "build", "variant": v.name, "f": bg},
+                    {"k": "decode_patched", "variant": v.name, "f": bg, "patch": [[lo, hi, u]]},
+                    {"k": "build", "variant": v.name, "f": bg},
+                    {"k": "decode_patched", "variant": v.name, "f": bg, "patch": [[lo, hi, mval]]},
+                    {"k": "decode_patched", "variant": v.name, "f": bg, "patch": [[lo, hi, u2]]},
+                ]
+                if none:
+                    ops.append({"k": "decode_patched", "variant": v.name, "f": bg, "patch": [[lo, hi, none[ui % len(none)]]]})
+                order = list(reversed(range(len(ops)))) if (ui + mi) % 2 == 0 else list(range(1, len(ops))) + [0]
+                out.append((f"unusual_then_ordinary:{elem}", {"ops": ops, "order": order}))
+    return out
+
+
+def drv_interleaved(ctx: Ctx, sub: SubCheck):
+    from hypothesis import strategies as st
+
+    def nontrivial(c):
+        return len(c["ops"]) >= 2
+
+    def work(name, t: Tally):
+        v = variants()[name]
+        for label, case in interleaved_cases(v, ctx.rng("interleaved", name)):
+            ctx.run_case(sub.name, oracle_interleaved, case, t)
+            t.case(sub.name, key=case, nontrivial=True, cls=label)
+            t.cls(sub.name, f"variant:{name}")
+
+    ctx.shards(work, [n for n in variants() if variants()[n].cls in ENUM_POS])
+
+    # random batches per PDU class: 2..4 ops drawn from the class's decoders (strings steered as in 'decode', their enum
+    # bits additionally forced to listed / unlisted / reserved values) and from its variants; phase 2 in a drawn order
+    classes = {}
+    for name, v in variants().items():
+        if v.cls in ENUM_POS:
+            classes.setdefault(v.cls, {"variants": [], "decoders": []})["variants"].append(name)
+    for name, d in decoders().items():
+        if d.cls in classes and d.method == "from_bits":
+            classes[d.cls]["decoders"].append(name)
+
+    def batch_strategy(cls):
+        parts = []
+        for dn in classes[cls]["decoders"]:
+            d = decoders()[dn]
+            pos = [(lo, hi, elem) for kw, elem, lo, hi, only in ENUM_POS[cls] if only is None]
+
+            def steer(a, d=d, pos=pos):
+                case, picks = a
+                bits = case["bits"]
+                for (lo, hi, elem), x in zip(pos, picks):
+                    if x is not None and hi <= len(bits):
+                        bits = bits[:lo] + format(x % (1 << (hi - lo)), f"0{hi - lo}b") + bits[hi:]
+                return {"k": "dec", "dec": d.name, "bits": bits}
+
+            parts.append(st.tuples(d.strategy(), st.tuples(*[st.one_of(st.none(), st.integers(0, (1 << (hi - lo)) - 1)) for lo, hi, _ in pos])).map(steer))
+        for vn in classes[cls]["variants"]:
+            parts.append(variants()[vn].strategy().map(lambda c: {"k": "build", "variant": c["variant"], "f": c["f"]}))
+        ops = st.lists(st.one_of(parts), min_size=2, max_size=4)
+        return ops.flatmap(lambda o: st.permutations(list(range(len(o)))).map(lambda perm, o=o: {"ops": o, "order": list(perm)}))
+
+    def hyp(cls, t: Tally):
+        ctx.hypothesis(sub.name, batch_strategy(cls), oracle_interleaved, ctx.pick(60, 1500), tally=t, shard=cls,
+                       record=lambda c, tt: tt.case(sub.name, key=c, nontrivial=nontrivial(c), cls=f"random_batch:{cls}"))
+
+    ctx.shards(hyp, sorted(classes))
+
+
+# ======================================================================================================================
 # (c) element enumerations, exhaustive
 
 
@@ -1478,6 +1740,8 @@ SUBCHECKS = [
     SubCheck("decode", oracle_decode, drv_decode, "(b) arbitrary right-length strings: documented rejection or decode-encode fixed point"),
     SubCheck("decode_boundary", oracle_decode, drv_decode_boundary, "(b) deterministic pass per decoder: all-zero / all-ones / alternating strings, every implemented opcode / format "
              "with zero, one and random fill, and every single-bit flip of those (reserved bits, distance-1 opcodes)"),
+    SubCheck("interleaved", oracle_interleaved, drv_interleaved, "two-phase batches: build / decode PDUs that differ in their enum octets (listed, unlisted in range, reserved, without "
+             "member), serialise again in another order, execute again: every result equals the first one; enum fields at the layout's positions; elements unchanged"),
     SubCheck("decode_atheris", oracle_decode, drv_atheris, "(b) coverage-guided (Atheris) campaign on the same decoders and oracle", tiers=("thorough",)),
     SubCheck("elements", oracle_element, drv_elements, "(c) all 2^w values of every w<=8-bit element: defined -> itself, undefined -> reserved member or error"),
     SubCheck("sync", oracle_sync, drv_sync, "SYNC constants and random 48-bit values"),
